@@ -4,6 +4,7 @@ package main
 
 import (
 	"fmt"
+	"go/types"
 	"strings"
 
 	"golang.org/x/tools/go/ssa"
@@ -39,21 +40,28 @@ func checkAddFeature(c *Ctx, rule string) {
 			}
 		}
 	})
-	good := linkStore != nil && copyLoad != nil && app != nil && domInstr(linkStore, copyLoad)
-	var stored bool
-	if app != nil {
+	st, why := unknown, "the append of the copied feature was not recognised"
+	switch {
+	case linkStore == nil:
+		st, why = broken, "AddFeature never stores the sequence into feature.ParentSequence: re-added features have no parent, GetSequence cannot find their bases"
+	case copyLoad != nil && domInstr(copyLoad, linkStore) && !domInstr(linkStore, copyLoad):
+		st, why = broken, "AddFeature copies *feature before it sets ParentSequence: the copy appended to sequence.Features has a nil or stale parent"
+	case copyLoad != nil && app != nil && domInstr(linkStore, copyLoad):
 		t := tb.T(app.(ssa.Value))
-		stored = t.Args[0].String() == "field[Features](deref(param[0]))" && t.Args[1].contains(func(x *Term) bool { return x.Op == "partial" && x.Args[0].String() == "deref(param[1])" })
-		// and the result is stored back
+		stored := t.Args[0].String() == "field[Features](deref(param[0]))" && t.Args[1].contains(func(x *Term) bool { return x.Op == "partial" && x.Args[0].String() == "deref(param[1])" })
 		okBack := false
 		eachInstr(af, func(i ssa.Instruction) {
 			if s, ok := i.(*ssa.Store); ok && tb.T(s.Addr).String() == "fieldaddr[Features](param[0])" && s.Val == app.(ssa.Value) {
 				okBack = true
 			}
 		})
-		stored = stored && okBack
+		if stored && okBack {
+			st = holds
+		} else {
+			why = "the linked copy is not visibly appended to sequence.Features and stored back"
+		}
 	}
-	c.check(good && stored, rule, "AddFeature:link-before-copy", af.Pos(), "ParentSequence is set on the feature before the copy that is appended to sequence.Features", "AddFeature must store feature.ParentSequence = sequence before copying *feature into sequence.Features (a copy taken first has a nil/stale parent)")
+	c.judge(st, rule, "AddFeature:link-before-copy", af.Pos(), "ParentSequence is set on the feature before the copy that is appended to sequence.Features", why)
 	// GetSequence goes through the parent pointer
 	gfs := c.W.fn("", "getFeatureSequence")
 	if gfs == nil {
@@ -70,7 +78,7 @@ func checkAddFeature(c *Ctx, rule string) {
 			}
 		}
 	})
-	c.check(reads, rule, "GetSequence:reads parent through the link", gfs.Pos(), "bases are sliced from feature.ParentSequence.Sequence", "feature sequences are not read from feature.ParentSequence.Sequence")
+	c.checkShape(reads, rule, "GetSequence:reads parent through the link", gfs.Pos(), "bases are sliced from feature.ParentSequence.Sequence", "no slice of feature.ParentSequence.Sequence found in getFeatureSequence")
 }
 
 func ruleC15(c *Ctx) {
@@ -108,44 +116,7 @@ func ruleC15(c *Ctx) {
 		return
 	}
 	c.useFn(parse)
-	tb := newTB(parse)
-	um, n := findCall(parse, "encoding/json.Unmarshal")
-	var seqAlloc *ssa.Alloc
-	if n == 1 {
-		seqAlloc, _ = unwrap(um.Common().Args[1]).(*ssa.Alloc)
-	}
-	okU := seqAlloc != nil && tname(deref(seqAlloc.Type())) == "poly.Sequence" && tb.T(um.Common().Args[0]).isParam(0)
-	c.check(okU, "RELINK", "Parse:unmarshal whole Sequence", parse.Pos(), "json.Unmarshal(file, &sequence) into a poly.Sequence", "polyjson.Parse does not unmarshal its input into one whole poly.Sequence")
-	if okU {
-		af, n := findCall(parse, "(*poly.Sequence).AddFeature")
-		good := n == 1
-		why := fmt.Sprintf("%d AddFeature calls, want 1", n)
-		if good {
-			recv := unwrap(af.Common().Args[0])
-			fa, _ := unwrap(af.Common().Args[1]).(*ssa.Alloc)
-			feat := ""
-			if fa != nil {
-				feat = tb.at(fa, nil, af).String()
-			}
-			wantFeat := "each(field[Features](outparam[encoding/json.Unmarshal]))"
-			hdr := enclosingLoopHeader(af.Block())
-			uncond := hdr != nil && len(hdr.Succs) == 2 && pathCond(tb, hdr.Succs[0], af.Block()).Op == "true"
-			if recv != ssa.Value(seqAlloc) || feat != wantFeat || !uncond {
-				good = false
-				why = fmt.Sprintf("receiver is the decoded sequence=%v; feature=%s (want %s); unconditional in the loop=%v", recv == ssa.Value(seqAlloc), short(feat), wantFeat, uncond)
-			}
-			// returned value is the same variable
-			rets := returnsOf(parse)
-			for _, r := range rets {
-				ld, ok := r.Results[0].(*ssa.UnOp)
-				if !ok || ld.X != ssa.Value(seqAlloc) {
-					good = false
-					why = "the returned value is not the sequence that was re-linked"
-				}
-			}
-		}
-		c.check(good, "RELINK", "Parse:AddFeature for every decoded feature", parse.Pos(), "every decoded feature is re-added, unconditionally and in order, to the returned sequence", why)
-	}
+	checkJSONRelink(c, parse, seqObj.Type())
 	checkAddFeature(c, "RELINK")
 
 	// WRAPPERS
@@ -166,4 +137,151 @@ func ruleC15(c *Ctx) {
 		}
 	}
 	checkMapOrder(c, "MAPORDER", fs)
+}
+
+// checkJSONRelink: polyjson.Parse decodes one whole Sequence, re-adds every decoded feature to the
+// sequence it returns, and that sequence carries every other decoded field.
+func checkJSONRelink(c *Ctx, parse *ssa.Function, seqT types.Type) {
+	view := newFamView(parse)
+	tb := view.tb[parse]
+	um, n := findCall(parse, "encoding/json.Unmarshal")
+	var dec *ssa.Alloc
+	if n == 1 {
+		dec, _ = unwrap(um.Common().Args[1]).(*ssa.Alloc)
+	}
+	switch {
+	case n != 1 || dec == nil:
+		c.undecided("RELINK", "Parse:unmarshal whole Sequence", parse.Pos(), fmt.Sprintf("%d json.Unmarshal calls into a local", n))
+		return
+	case tname(deref(dec.Type())) != "poly.Sequence":
+		c.bad("RELINK", "Parse:unmarshal whole Sequence", um.Pos(), "the input is decoded into a "+tname(deref(dec.Type()))+", not a whole poly.Sequence")
+		return
+	case !stripConv(tb.T(um.Common().Args[0])).isParam(0):
+		c.undecided("RELINK", "Parse:unmarshal whole Sequence", um.Pos(), "decoded data is "+short(tb.T(um.Common().Args[0]).String()))
+		return
+	}
+	c.ok("RELINK", "Parse:unmarshal whole Sequence", um.Pos(), "json.Unmarshal(file, &sequence) into a poly.Sequence")
+	decT := tb.T(dec).String()
+	decoded := []string{"outparam[encoding/json.Unmarshal]", "deref(" + decT + ")"}
+	// the AddFeature call, wherever in the family
+	var af ssa.CallInstruction
+	var afFn *ssa.Function
+	nAF := 0
+	view.each(func(g *ssa.Function, i ssa.Instruction) {
+		if ci, ok := i.(ssa.CallInstruction); ok && calleeName(ci) == "(*poly.Sequence).AddFeature" {
+			af, afFn = ci, g
+			nAF++
+		}
+	})
+	if nAF != 1 {
+		st := unknown
+		why := fmt.Sprintf("%d AddFeature calls in Parse and its helpers, the model needs 1", nAF)
+		if nAF == 0 && len(view.fns) == len(family(parse)) {
+			st, why = broken, "the decoded features are never re-added with AddFeature: their ParentSequence stays nil (json:\"-\"), so GetSequence fails on every feature read from JSON"
+		}
+		c.judge(st, "RELINK", "Parse:AddFeature for every decoded feature", parse.Pos(), "", why)
+		return
+	}
+	st, why := holds, ""
+	atb := view.tb[afFn]
+	// which feature
+	var feat *Term
+	switch a := unwrap(af.Common().Args[1]).(type) {
+	case *ssa.Alloc:
+		feat = atb.at(a, nil, af)
+		if afFn != parse {
+			feat = substParams(feat, view.args[afFn])
+		}
+	default:
+		feat = view.T(afFn, a)
+		if feat.Op == "indexaddr" || feat.Op == "addr" {
+			feat = &Term{Op: "each", Args: feat.Args[:1]}
+		}
+	}
+	okFeat := false
+	fs := feat.String()
+	for _, d := range decoded {
+		if fs == "each(field[Features]("+d+"))" {
+			okFeat = true
+		}
+	}
+	if !okFeat {
+		// indexaddr(list, rangeidx) over the decoded list
+		if feat.Op == "indexaddr" || feat.Op == "index" {
+			for _, d := range decoded {
+				if feat.Args[0].String() == "field[Features]("+d+")" && feat.Args[1].Op == "rangeidx" {
+					okFeat = true
+				}
+			}
+		}
+	}
+	if !okFeat {
+		st, why = unknown, "the feature re-added is "+short(fs)
+	}
+	// unconditional, once per decoded feature
+	if st == holds {
+		entry := loopBodyEntry(af.Block())
+		if entry == nil {
+			st, why = broken, "AddFeature is not called in a loop over the decoded features: at most one feature is re-linked"
+		} else if pc := pathCond(atb, entry, af.Block()); pc.Op != "true" {
+			st, why = unknown, "features are re-added under "+short(pc.String())
+			nOpaque := 0
+			for _, a := range pc.atoms() {
+				nOpaque += len(opaqueParts(a.Atom, vocabOf(decoded...)))
+			}
+			if nOpaque == 0 {
+				st, why = broken, "a decoded feature is re-added only under "+short(substCond(pc, view.args[afFn]).String())+": the others are dropped from the result"
+			}
+		}
+	}
+	// onto which sequence, and is that what Parse returns with all the other decoded fields
+	recv := view.T(afFn, af.Common().Args[0])
+	var target *ssa.Alloc
+	if a, ok := recv.V.(*ssa.Alloc); ok && a.Parent() == parse {
+		target = a
+	} else if recv.String() == decT {
+		target = dec
+	}
+	if st == holds {
+		switch {
+		case target == nil:
+			st, why = unknown, "features are added to "+short(recv.String())
+		default:
+			for _, r := range returnsOf(parse) {
+				ld, ok := r.Results[0].(*ssa.UnOp)
+				if !ok || ld.X != ssa.Value(target) {
+					st, why = unknown, "the returned value is not visibly the sequence the features were added to"
+				}
+			}
+		}
+	}
+	if st == holds && target != dec {
+		// a second Sequence assembled from the decoded one: every field but Features must be carried over
+		if stT, ok := seqT.Underlying().(*types.Struct); ok {
+			rets := returnsOf(parse)
+			for i := 0; i < stT.NumFields() && len(rets) > 0; i++ {
+				f := stT.Field(i).Name()
+				if f == "Features" {
+					continue
+				}
+				got := tb.at(target, []string{"." + f}, rets[0])
+				okF := false
+				for _, l := range phiLeaves(got) {
+					for _, d := range decoded {
+						if l.String() == "field["+f+"]("+d+")" {
+							okF = true
+						}
+					}
+				}
+				switch {
+				case okF:
+				case got.Op == "zero" || strings.HasPrefix(got.String(), "zero"):
+					st, why = broken, "the sequence returned is assembled field by field from the decoded one and "+f+" is not copied: it comes back empty after a JSON round trip"
+				case st == holds:
+					st, why = unknown, "field "+f+" of the returned sequence is "+short(got.String())
+				}
+			}
+		}
+	}
+	c.judge(st, "RELINK", "Parse:AddFeature for every decoded feature", af.Pos(), "every decoded feature is re-added, unconditionally and in order, to the returned sequence, which carries every other decoded field", why)
 }
